@@ -23,7 +23,7 @@ PROPS = {
             'technique': 'Verus: derived table denotations == reference table cell by cell (3x256) + automaton postcondition on the real ScancodeSet2::advance_state + sequence lemmas + verified clients'},
     'C02': {'denotations': 'set1', 'lemmas': ['c02'], 'support_lemmas': ['c07'], 'cellgens': ['scancode_ref'], 'assume': BASE + [A_PRIV, A_REF_SC], 'kani': [], 'design': 'DESIGN.md section 3, C02',
             'technique': 'Verus: derived table denotations == reference table cell by cell (3x256) + automaton postcondition and invariant on the real ScancodeSet1::advance_state + sequence lemmas + verified clients'},
-    'C03': {'denotations': 'layouts', 'lemmas': [], 'support_lemmas': ['ldefs'], 'cellgens': ['c03_cells'], 'assume': BASE + [A_CHAR, A_PRED, A_KANI, A_REF_LAY], 'kani': ['char_from_u8_is_cast', 'predicates_equal_copies'], 'design': 'DESIGN.md section 3, C03',
+    'C03': {'needs_invariants': False, 'denotations': 'layouts', 'lemmas': [], 'support_lemmas': ['ldefs'], 'cellgens': ['c03_cells'], 'assume': BASE + [A_CHAR, A_PRED, A_KANI, A_REF_LAY], 'kani': ['char_from_u8_is_cast', 'predicates_equal_copies'], 'design': 'DESIGN.md section 3, C03',
             'technique': 'Verus lemmas per (layout, key, level) against reference tables of the national layouts, for every modifier state and mode selecting the level, over the derived layout denotations'},
     'C04': {'kani_scenarios': ['events'], 'lemmas': ['c04'], 'assume': BASE + [A_PRIV], 'kani': [], 'design': 'DESIGN.md section 3, C04',
             'technique': 'Verus postcondition mods\' == mods_step(mods, ev) on the real process_keyevent + induction lemma over Seq<KeyEvent> + verified clients'},
@@ -36,17 +36,17 @@ PROPS = {
     'C08': {'kani_scenarios': ['word', 'bits', 'events'], 'denotations': 'all', 'lemmas': [], 'assume': BASE + [A_PRIV, A_COUNT, A_CHAR, A_PRED, A_KANI], 'kani': ['count_ones_is_bit_sum', 'char_from_u8_is_cast', 'predicates_equal_copies'],
             'design': 'DESIGN.md section 3, C08',
             'technique': 'Verus built-in overflow / shift-range / panic-unreachable obligations on every exec function under the representation invariants'},
-    'C09': {'denotations': 'layouts', 'lemmas': [], 'support_lemmas': ['ldefs'], 'cellgens': ['layout_cells'], 'assume': BASE + [A_CHAR, A_PRED, A_KANI], 'kani': ['char_from_u8_is_cast', 'predicates_equal_copies'], 'design': 'DESIGN.md section 3, C09',
+    'C09': {'needs_invariants': False, 'denotations': 'layouts', 'lemmas': [], 'support_lemmas': ['ldefs'], 'cellgens': ['layout_cells'], 'assume': BASE + [A_CHAR, A_PRED, A_KANI], 'kani': ['char_from_u8_is_cast', 'predicates_equal_copies'], 'design': 'DESIGN.md section 3, C09',
             'technique': 'Verus relational lemmas per (layout, key) over the layout denotations derived from the real map_keycode bodies (proved equal to them); Kani discharges the predicate / char::from assumptions'},
-    'C10': {'denotations': 'layouts', 'lemmas': [], 'support_lemmas': ['ldefs'], 'cellgens': ['layout_cells'], 'assume': BASE + [A_CHAR, A_PRED, A_KANI], 'kani': ['char_from_u8_is_cast', 'predicates_equal_copies'], 'design': 'DESIGN.md section 3, C10',
+    'C10': {'needs_invariants': False, 'denotations': 'layouts', 'lemmas': [], 'support_lemmas': ['ldefs'], 'cellgens': ['layout_cells'], 'assume': BASE + [A_CHAR, A_PRED, A_KANI], 'kani': ['char_from_u8_is_cast', 'predicates_equal_copies'], 'design': 'DESIGN.md section 3, C10',
             'technique': 'Verus relational lemmas per (layout, key): CapsLock twin states, over the derived layout denotations; Kani discharges the predicate / char::from assumptions'},
-    'C11': {'denotations': 'layouts', 'lemmas': ['c11'], 'support_lemmas': ['ldefs'], 'cellgens': ['layout_cells'], 'assume': BASE + [A_CHAR, A_PRED, A_KANI], 'kani': ['char_from_u8_is_cast', 'predicates_equal_copies'], 'design': 'DESIGN.md section 3, C11',
+    'C11': {'needs_invariants': False, 'denotations': 'layouts', 'lemmas': ['c11'], 'support_lemmas': ['ldefs'], 'cellgens': ['layout_cells'], 'assume': BASE + [A_CHAR, A_PRED, A_KANI], 'kani': ['char_from_u8_is_cast', 'predicates_equal_copies'], 'design': 'DESIGN.md section 3, C11',
             'technique': 'Verus relational lemmas per (layout, key): equal five facts imply equal output, over the derived layout denotations; predicate groupings proved on the derived copies and equated with the compiled predicates by Kani'},
-    'C12': {'denotations': 'layouts', 'lemmas': [], 'support_lemmas': ['ldefs'], 'cellgens': ['layout_cells'], 'assume': BASE + [A_CHAR, A_PRED, A_KANI], 'kani': ['char_from_u8_is_cast', 'predicates_equal_copies'], 'design': 'DESIGN.md section 3, C12',
+    'C12': {'needs_invariants': False, 'denotations': 'layouts', 'lemmas': [], 'support_lemmas': ['ldefs'], 'cellgens': ['layout_cells'], 'assume': BASE + [A_CHAR, A_PRED, A_KANI], 'kani': ['char_from_u8_is_cast', 'predicates_equal_copies'], 'design': 'DESIGN.md section 3, C12',
             'technique': 'Verus existential lemmas per (layout, character) with witnesses hinted by the real code and checked by Verus over the derived layout denotations'},
-    'C15': {'denotations': 'layouts', 'lemmas': [], 'support_lemmas': ['ldefs'], 'cellgens': ['layout_cells'], 'assume': BASE + [A_CHAR, A_PRED, A_KANI], 'kani': ['char_from_u8_is_cast', 'predicates_equal_copies'], 'design': 'DESIGN.md section 3, C15',
+    'C15': {'needs_invariants': False, 'denotations': 'layouts', 'lemmas': [], 'support_lemmas': ['ldefs'], 'cellgens': ['layout_cells'], 'assume': BASE + [A_CHAR, A_PRED, A_KANI], 'kani': ['char_from_u8_is_cast', 'predicates_equal_copies'], 'design': 'DESIGN.md section 3, C15',
             'technique': 'Verus lemmas per (layout, numpad/editing key) for all modifier states and modes over the derived layout denotations'},
-    'C16': {'denotations': 'layouts', 'lemmas': [], 'support_lemmas': ['ldefs'], 'cellgens': ['layout_cells'], 'assume': BASE + [A_CHAR, A_PRED, A_KANI], 'kani': ['char_from_u8_is_cast', 'predicates_equal_copies'], 'design': 'DESIGN.md section 3, C16',
+    'C16': {'needs_invariants': False, 'denotations': 'layouts', 'lemmas': [], 'support_lemmas': ['ldefs'], 'cellgens': ['layout_cells'], 'assume': BASE + [A_CHAR, A_PRED, A_KANI], 'kani': ['char_from_u8_is_cast', 'predicates_equal_copies'], 'design': 'DESIGN.md section 3, C16',
             'technique': 'Verus lemmas per (layout, key): 52 character-less keys raw in every state; raw results are the key itself or its NumLock-off alias, over the derived layout denotations'},
     'C13': {'denotations': 'tables', 'lemmas': ['c13'], 'cellgens': ['xlat_cells'], 'assume': BASE + [A_PRIV, A_REF_XL], 'kani': [], 'design': 'DESIGN.md section 3, C13',
             'technique': 'Verus lemmas relating the derived denotations of the six real tables through the i8042 translation table (forward, and backward via a verified inverse map) + event-level lemma over the two automaton contracts + verified client'},
@@ -54,7 +54,7 @@ PROPS = {
             'technique': 'Verus postcondition r == decode_out(layout, mods, mode, ev) on the real process_keyevent, generic in the layout via a ghost trait member + verified clients for mode/layout changes'},
     'C19': {'denotations': 'tables', 'lemmas': ['c19'], 'cellgens': ['injectivity'], 'assume': BASE + [A_PRIV], 'kani': [], 'design': 'DESIGN.md section 3, C19',
             'technique': 'Verus: injectivity of the six derived table denotations via verified inverse maps (hint from the real code, checked by Verus); make/break pairing lemmas over the automaton contracts + verified clients'},
-    'C17': {'denotations': 'wrappers', 'lemmas': ['c17'], 'cellgens': ['anylayout_cells'], 'assume': BASE + [A_CHAR, A_PRED, A_KANI], 'kani': ['char_from_u8_is_cast', 'predicates_equal_copies'], 'design': 'DESIGN.md section 3, C17',
+    'C17': {'needs_invariants': False, 'denotations': 'wrappers', 'lemmas': ['c17'], 'cellgens': ['anylayout_cells'], 'assume': BASE + [A_CHAR, A_PRED, A_KANI], 'kani': ['char_from_u8_is_cast', 'predicates_equal_copies'], 'design': 'DESIGN.md section 3, C17',
             'technique': 'Verus lemmas per variant and wrapper form over the denotations of the two real AnyLayout::map_keycode impls (derived from their bodies, proved equal to them) + verified client'},
     'C18': {'lemmas': ['c18'], 'assume': BASE + [A_PRIV, A_COUNT, A_KANI], 'kani': ['count_ones_is_bit_sum'], 'design': 'DESIGN.md section 3, C18',
             'technique': 'Verus frame postconditions on all nine Keyboard methods (generic in S, L) + verified simulation clients: Keyboard vs three separate stages'},
